@@ -68,6 +68,15 @@ func gen(t *rapid.T) udprun.Case {
 				break
 			}
 		}
+		// the open request with a piggybacked first write (request + data up to
+		// 1024 bytes) is the largest session segment: aim it at a small MTU
+		if c.Cfg.NoWait && rapid.Bool().Draw(t, "bigOpen") {
+			c.Cfg.ClientMTU = rapid.SampledFrom([]int{1280, 1281, 1300, 1350}).Draw(t, "smallMTU")
+			for i := range c.Progs {
+				first := 1024 - e2e.Socks5RequestLen(i) - rapid.IntRange(0, 60).Draw(t, "openJitter")
+				c.Progs[i].Up.Writes = append([]int{first}, c.Progs[i].Up.Writes...)
+			}
+		}
 		c.Pressure = true
 	}
 	return c
